@@ -2,6 +2,9 @@ SPECIFICATION Spec
 CONSTANTS
   MaxDocs = 3
   MaxFields = 3
+  Universes = {"plain", "blank", "affix", "inner"}
+  Sanitiser = "verbatim"
 INVARIANT KeepsOnlyOwnFields
 INVARIANT AllowExceptPartition
+INVARIANT EntryFaithful
 INVARIANT Emit
